@@ -142,16 +142,26 @@ type Scenario struct {
 // Custom implements Unmarshaler (pointer receiver) and Marshaler (value receiver).
 type Custom string
 
+func reverseBytes(s string) string {
+	b := []byte(s)
+	for i, j := 0, len(b)-1; i < j; i, j = i+1, j-1 {
+		b[i], b[j] = b[j], b[i]
+	}
+	return string(b)
+}
+
+// UnmarshalFlag stores the bytes of the argument in reverse order (so that the use
+// of the custom conversion is observable); MarshalFlag is its inverse.
 func (c *Custom) UnmarshalFlag(v string) error {
 	if strings.HasPrefix(v, "!") {
 		return errors.New("custom: rejected " + v)
 	}
-	*c = Custom("u:" + v)
+	*c = Custom(reverseBytes(v))
 	return nil
 }
 
 func (c Custom) MarshalFlag() (string, error) {
-	return strings.TrimPrefix(string(c), "u:"), nil
+	return reverseBytes(string(c)), nil
 }
 
 // Comp implements Completer (pointer receiver); otherwise a plain string.
